@@ -32,6 +32,18 @@ Theorem C14_wrong_name_certificate_rejected : forall pin names c p t,
   (forall n, In n names -> ~ In n (c_names c)) -> accept_remote pin names c p t = None.
 Proof. exact wrong_name_rejected. Qed.
 
+(** Chains: a dialer whose own (end-entity) certificate is valid for none of the accepted names is rejected
+    whatever certificates follow it - somebody else's valid certificate for the listener's network, put
+    behind one's own, buys nothing (seeded change C14-e made exactly that an admission ticket). *)
+Theorem C14_wrong_name_chain_rejected : forall pin names c rest p t,
+  (forall n, In n names -> ~ In n (c_names c)) -> accept_chain pin names (c :: rest) p t = None.
+Proof. intros pin names c rest p t H. cbn [accept_chain]. now apply wrong_name_rejected. Qed.
+
+Example C14_chain_ex :   (* dialer 7 holds a certificate for network 30 and appends 9's certificate for network 10 *)
+  accept_chain None [10] [honest_cert 7 30; honest_cert 9 10] (honest_proof 7 99) 99 = None
+  /\ accept_chain None [10] [honest_cert 7 10; honest_cert 9 30] (honest_proof 7 99) 99 = Some 7.
+Proof. vm_compute. split; reflexivity. Qed.
+
 Example C14_ex :
   let n p a := mkNode p a None [] [] [] in
   let w := mkWorld [(1, n 10 None); (2, n 20 (Some 10)); (3, n 20 None)] [] in
@@ -46,3 +58,4 @@ Print Assumptions C14_disjoint_never_connect.
 Print Assumptions C14_foreign_certificate_rejected.
 Print Assumptions C14_unknown_sni_rejected.
 Print Assumptions C14_wrong_name_certificate_rejected.
+Print Assumptions C14_wrong_name_chain_rejected.
